@@ -39,7 +39,7 @@ def text_fields(ctx, rep):
             continue
         lay = None
         for f in it.get("fields", []):
-            has = any(a.get("form") == "list" and any(d["key"] in ("parse_with", "write_with") and "codepage_string" in d["raw"] for d in a["items"]) for a in f.get("attrs", []))
+            has = any(a.get("form") == "list" and any(d["key"] in ("parse_with", "write_with") for d in a["items"]) for a in f.get("attrs", []))
             if not has:
                 continue
             if lay is None:
@@ -47,6 +47,8 @@ def text_fields(ctx, rep):
             fi = [x for x in lay["fields"] if x["name"] == f["name"]][0]
             r = [s for s in fi["read"] if s["cls"] == "text"]
             w = [s for s in fi["write"] if s["cls"] == "text"]
+            if not r and not w:
+                continue          # a custom parser / writer of something else (durations, lists)
             key = "%s.%s" % (it["name"], f["name"])
             loc = ctx.loc((crate, modpath, file, it), f["ln"])
             n += 1
